@@ -315,6 +315,10 @@ def _strcmp_scan(F, ev):
                     lets.append((st_["pat"]["name"], st_["pat"].get("ty"), vs, any(x.get("k") == "deref" for x in walk(st_["init"]))))
     cur = [next((nm for nm, ty, vs, d in lets if ty == "u64" and vs == [pn] and not d), None) for pn in pnames0[:2]]
     val = [next((nm for nm, ty, vs, d in lets if ty == "u8" and vs == [c] and d), None) for c in cur]
+    if None not in cur:
+        okb = _strcmp_scan_reading_loop(F, ev, fn, loops[0], ids, cur)
+        if okb is not None:
+            return okb
     if None in cur or None in val:
         return False, "scan variables not found: cursors %s, bytes %s" % (cur, val)
     want_names = (cur[0], cur[1], val[0], val[1])
@@ -358,6 +362,43 @@ def _strcmp_scan(F, ev):
     if src != want_src:
         return False, "initial values: %s" % src
     return True, "one-byte steps on both cursors; continues while equal and non-NUL"
+
+
+def _strcmp_scan_reading_loop(F, ev, fn, loop, ids, cur):
+    """the other spelling of the scan: `loop { x = *a; y = *b; if x != y || x == 0 { break (x, y) } a += 1; b += 1 }`.
+    None when the loop is not of this kind (the read-ahead form is then tried)."""
+    owner = ev.owner_of("helpers::strcmp")
+    A, B = T.V("A", 64), T.V("B", 64)
+    st = symex.St().set((owner, ids[cur[0]]), A).set((owner, ids[cur[1]]), B)
+    outs = [(v, s2) for v, s2 in ev.ev(loop["body"], st, "helpers::strcmp") if s2.feasible]
+    brk = [s2 for _v, s2 in outs if s2.exit is not None and s2.exit[0] == "break" and len(s2.exit) > 1]
+    cont = [s2 for _v, s2 in outs if s2.exit is None or s2.exit[0] == "continue"]
+    if not brk or not cont:
+        return None
+    X, Y = ("load", 8, A), ("load", 8, B)
+    if len(cont) != 1:
+        return False, "%d continuing paths" % len(cont)
+    c = cont[0]
+    if c.env.get((owner, ids[cur[0]])) != T.op("add", 64, A, T.K(64, 1)) or c.env.get((owner, ids[cur[1]])) != T.op("add", 64, B, T.K(64, 1)):
+        return False, "the cursors do not both advance by one byte"
+    conj = set()
+    for x in c.conds:
+        stack = [x]
+        while stack:
+            y = stack.pop()
+            if isinstance(y, tuple) and y and y[0] == "land":
+                stack.extend([y[1], y[2]])
+            else:
+                conj.add(y)
+    nul = {T.cmp("ne", 8, X, T.K(8, 0)), T.cmp("ne", 8, Y, T.K(8, 0))}
+    if not (T.cmp("eq", 8, X, Y) in conj and conj & nul and conj <= nul | {T.cmp("eq", 8, X, Y)}):
+        return False, "continue condition: %s" % sorted(_sh(x) for x in conj)
+    for b in brk:
+        v = b.exit[1]
+        vals = [x for _k, x in v[3]] if isinstance(v, tuple) and v and v[0] == "struct" else None
+        if vals != [X, Y]:
+            return False, "the loop does not leave with the two bytes it stopped at"
+    return True, "reads both bytes, leaves with them at the first difference or NUL, otherwise advances both cursors by one"
 
 
 def _memfrob_shape(F, fn):
